@@ -2,6 +2,9 @@ module verif/tools
 
 go 1.16
 
-require github.com/lorenzodonini/ocpp-go v0.0.0
+require (
+	github.com/gorilla/websocket v1.5.3
+	github.com/lorenzodonini/ocpp-go v0.0.0
+)
 
 replace github.com/lorenzodonini/ocpp-go => /repo
